@@ -136,6 +136,15 @@ def entries():
             m.autoregressive_net.final_layer.bias[0::2] = -3.0
         return m
 
+    def expanding_maf():
+        # every unconstrained scale around 95: softplus is the identity there and exp(95) is beyond single precision -
+        # values, log-dets and gradients are ordinary numbers
+        m = TR.MaskedAffineAutoregressiveTransform(3, 8, num_blocks=1)
+        with torch.no_grad():
+            m.autoregressive_net.final_layer.bias[0::2] = 95.0
+        return m
+
+    add("MaskedAffineAR/scales-around-95", "transform", expanding_maf, _rn(3), flags={"inv"})
     add("MaskedAffineAR/96-features-contracting", "transform", wide_maf, _rn(96), flags={"inv", "large", "illconditioned"})
     add("MaskedAffineAR/ctx+random", "transform", lambda: TR.MaskedAffineAutoregressiveTransform(3, 8, context_features=2, num_blocks=2, use_residual_blocks=False, random_mask=True), _rn(3), _rn(2), flags={"inv", "ctor_random"})
     # few hidden units under random masks: degrees go missing, so the dependency chains (and with them how many inverse
@@ -313,6 +322,14 @@ def entries():
     add("SimpleRealNVP", "flow", lambda: FL.SimpleRealNVP(4, 8, num_layers=2, num_blocks_per_layer=1), _rn(4), flags={"sample"})
     # ---- non-default constructor arguments that no entry above uses
     add("LULinear/eps=0.3", "transform", lambda: TR.LULinear(3, identity_init=False, eps=0.3), _rn(3), flags={"inv", "linear"})
+    def svd_on_the_floor():
+        # two unconstrained diagonal entries far below zero: those singular values sit on the floor eps
+        m = TR.SVDLinear(3, num_householder=2, identity_init=False, eps=0.05)
+        with torch.no_grad():
+            m.unconstrained_diagonal.copy_(torch.tensor([-12.0, 0.4, -15.0]))
+        return m
+
+    add("SVDLinear/singular-values-on-the-floor", "transform", svd_on_the_floor, _rn(3), flags={"inv", "linear"})
     add("SVDLinear/eps=0.2", "transform", lambda: TR.SVDLinear(3, num_householder=2, identity_init=False, eps=0.2), _rn(3), flags={"inv", "linear"})
     add("Sigmoid/T=3+eps=1e-3", "transform", lambda: NL.Sigmoid(temperature=3.0, eps=1e-3), _rn(3), flags={"anyshape", "inv", "noparams"}, y=_ru(3))
     for nm, cls, tb in [("Linear", NL.PiecewiseLinearCDF, 0.5), ("Quadratic", NL.PiecewiseQuadraticCDF, 3.0), ("Cubic", NL.PiecewiseCubicCDF, 0.5), ("RQ", NL.PiecewiseRationalQuadraticCDF, 0.5)]:
